@@ -18,6 +18,9 @@ class C01(Prop):
     LONG_BIAS = 0.3
     QUICK = (40, 20)
     THOROUGH = (220, 40)
+    TECHNIQUE = ("stateful property-based testing (Hypothesis) against a ledger oracle; thorough tier adds coverage-guided "
+                 "fuzzing of histories (atheris/libFuzzer driving Hypothesis' fuzz_one_input)")
+    FUZZ_RUNS = 400
     ASSUMPTIONS = ["ledger of submitted pages is the ground truth (built from request inputs only)",
                    "known finding K2 (add_pages ignores crawled=False) is tolerated exactly on pages whose only "
                    "crawled evidence is add_pages(..., crawled=False)"]
